@@ -39,6 +39,7 @@ VARIABLES l,       \* position in Rec
           cfg,     \* the `new` event of the current run (container kind, version, options)
           seq,     \* last sequence number seen in the current run
           unspec,  \* the program left the documented preconditions: nothing more is judged in this run
+          amb,     \* a tag name was added twice: what the name now denotes is open until the next build shows it
           viol, devs, why, stats
 
 SetOfSeq(q) == {q[j] : j \in 1..Len(q)}
@@ -169,24 +170,48 @@ FromObs(mm, o) ==
 NamesUnique(o) == \A i, j \in 1..Len(o.tags) : i # j => o.tags[i].name # o.tags[j].name
 
 \* ---- one builder operation: the model says whether it is valid -----------------------------------
-JudgeOp(e, c, mm, sq) ==
+Added(e) == IF e.op = "add_file" THEN 1 ELSE IF e.op = "add_files" THEN Len(e.files) ELSE 0
+JudgeOp(e, c, mm, sq, am) ==
   LET r     == ApplyOp(mm, Positional(c), e)
       seqok == e.seq = sq + 1
       resok == e.res # "panic" /\ (r.valid = "yes" => e.res = "ok")
-  IN [good   |-> r.valid = "unspec" \/ (seqok /\ resok),
-      reason |-> IF seqok THEN "result" ELSE "seq",
-      st     |-> IF r.valid = "yes" /\ e.res = "ok" THEN r.st ELSE mm,
-      unspec |-> r.valid = "unspec"]
+      dup   == e.op = "add_tag" /\ e.t \in TagNames(mm)     \* the name exists already
+  IN IF am \/ dup
+     THEN \* nothing is judged but panics; only the id counter (a function of the program text) advances
+          [good |-> seqok /\ e.res # "panic", reason |-> IF seqok THEN "result" ELSE "seq",
+           st |-> [mm EXCEPT !.next = @ + Added(e)], unspec |-> FALSE, amb |-> TRUE]
+     ELSE [good   |-> r.valid = "unspec" \/ (seqok /\ resok),
+           reason |-> IF seqok THEN "result" ELSE "seq",
+           st     |-> IF r.valid = "yes" /\ e.res = "ok" THEN r.st ELSE mm,
+           unspec |-> r.valid = "unspec", amb |-> FALSE]
 
 \* ---- one build event ------------------------------------------------------------------------------
+(* Dev_F19c: add_tag with a name that already exists pushes a second tag with that name (all three
+   builders).  The builder's name -> index table then denotes the new tag while every name-based query of
+   the built manifest resolves to the first one.  The documented precondition (download add_tag: "the tag
+   name must be unique within the manifest") is not enforced.  What is required instead of a particular
+   handling: a built manifest never contains two tags with the same name.  Guard: a name was added while
+   present (amb) and the next built manifest shows a name twice; effect: nothing more is judged in the run. *)
+JudgeAmbBuild(e, c, mm, sq) ==
+  LET seqok == e.seq = sq + 1
+      base  == [st |-> mm, dev |-> "", amb |-> FALSE] IN
+  IF ~seqok THEN [good |-> FALSE, reason |-> "seq", unspec |-> TRUE] @@ base
+  ELSE IF e.res = "refused" THEN [good |-> TRUE, reason |-> "", unspec |-> TRUE] @@ base      \* e.g. duplicates rejected at build
+  ELSE IF e.res # "ok" THEN [good |-> FALSE, reason |-> e.res, unspec |-> TRUE] @@ base
+  ELSE IF NamesUnique(e.obs)                                                                  \* resolved: go on from what is shown
+       THEN [good |-> TRUE, reason |-> "", unspec |-> Positional(c), st |-> IF Positional(c) THEN mm ELSE FromObs(mm, e.obs),
+             dev |-> "", amb |-> FALSE]
+  ELSE IF "F19c" \in KnownDeviations THEN [good |-> TRUE, reason |-> "", unspec |-> TRUE, st |-> mm, dev |-> "F19c", amb |-> FALSE]
+  ELSE [good |-> FALSE, reason |-> "dupname", unspec |-> TRUE] @@ base
+
 JudgeBuild(e, c, mm, sq) ==
   LET seqok == e.seq = sq + 1
       has   == "obs" \in DOMAIN e
-      keep  == [st |-> mm, unspec |-> FALSE, dev |-> ""]
+      keep  == [st |-> mm, unspec |-> FALSE, dev |-> "", amb |-> FALSE]
       bad(reason) == \* resynchronise to what the parsed manifest shows, when it shows anything usable
         IF e.res = "ok" /\ ~Positional(c)
-        THEN IF NamesUnique(e.obs) THEN [good |-> FALSE, reason |-> reason, st |-> FromObs(mm, e.obs), unspec |-> FALSE, dev |-> ""]
-             ELSE [good |-> FALSE, reason |-> reason, st |-> mm, unspec |-> TRUE, dev |-> ""]
+        THEN IF NamesUnique(e.obs) THEN [good |-> FALSE, reason |-> reason, st |-> FromObs(mm, e.obs), unspec |-> FALSE, dev |-> "", amb |-> FALSE]
+             ELSE [good |-> FALSE, reason |-> reason, st |-> mm, unspec |-> TRUE, dev |-> "", amb |-> FALSE]
         ELSE [good |-> FALSE, reason |-> reason] @@ keep
   IN IF ~seqok THEN bad("seq")
      ELSE IF e.res = "refused" THEN        \* no manifest was assembled; that needs a reason the model knows
@@ -200,7 +225,7 @@ JudgeBuild(e, c, mm, sq) ==
              ELSE IF ~AskedOk(e, c, mm) THEN bad("query")
              ELSE [good |-> TRUE, reason |-> "", dev |-> IF dA THEN "F19a" ELSE ""] @@ keep
 
-TInit == /\ l = 1 /\ m = M0 /\ cfg = [kind |-> "none"] /\ seq = 0 /\ unspec = FALSE
+TInit == /\ l = 1 /\ m = M0 /\ cfg = [kind |-> "none"] /\ seq = 0 /\ unspec = FALSE /\ amb = FALSE
          /\ viol = <<>> /\ devs = <<>> /\ why = <<>> /\ stats = S0
 
 Bump(f) == [stats EXCEPT ![f] = @ + 1]
@@ -209,25 +234,27 @@ Step ==
   /\ l <= Len(Rec)
   /\ LET e == Rec[l] IN
      IF e.op = "new" THEN
-        /\ m' = M0 /\ cfg' = e /\ seq' = 0 /\ unspec' = FALSE
+        /\ m' = M0 /\ cfg' = e /\ seq' = 0 /\ unspec' = FALSE /\ amb' = FALSE
         /\ UNCHANGED <<viol, devs, why, stats>>
      ELSE IF e.op = "hang" THEN
         /\ viol' = Append(viol, l) /\ why' = Append(why, <<l, "hang">>)
-        /\ UNCHANGED <<m, cfg, seq, unspec, devs, stats>>
+        /\ UNCHANGED <<m, cfg, seq, unspec, amb, devs, stats>>
      ELSE IF unspec THEN
         /\ seq' = e.seq /\ stats' = Bump("unspec_events")
-        /\ UNCHANGED <<m, cfg, unspec, viol, devs, why>>
+        /\ UNCHANGED <<m, cfg, unspec, amb, viol, devs, why>>
      ELSE IF e.op # "build" THEN
-        \E v \in {JudgeOp(e, cfg, m, seq)} :      \* (bound once: the judgement is evaluated a single time)
+        \E v \in {JudgeOp(e, cfg, m, seq, amb)} :      \* (bound once: the judgement is evaluated a single time)
            /\ m' = v.st
            /\ unspec' = v.unspec
+           /\ amb' = v.amb
            /\ seq' = e.seq
            /\ viol' = IF v.good THEN viol ELSE Append(viol, l)
            /\ why' = IF v.good THEN why ELSE Append(why, <<l, v.reason>>)
            /\ stats' = Bump("ops")
            /\ UNCHANGED <<cfg, devs>>
      ELSE
-        \E v \in {JudgeBuild(e, cfg, m, seq)} :
+        \E v \in {IF amb THEN JudgeAmbBuild(e, cfg, m, seq) ELSE JudgeBuild(e, cfg, m, seq)} :
+           /\ amb' = v.amb
            /\ viol' = IF v.good THEN viol ELSE Append(viol, l)
            /\ why'  = IF v.good THEN why ELSE Append(why, <<l, v.reason>>)
            /\ devs' = IF v.good /\ v.dev # "" THEN Append(devs, <<l, v.dev>>) ELSE devs
